@@ -110,9 +110,12 @@ contract(Contract(
         "lossless.tiling": "implies(width > 0, len(cuts) == len(result) and len(ends) == len(result)"
                            " and implies(len(result) > 0, cuts[0] == 0 and ends[len(result) - 1] == len(words))"
                            " and iff(len(result) == 0, len(words) == 0))",
-        "lossless.lines": "implies(width > 0, all(line_ok(j) for j in range(len(result))))",
-        "lossless.words": "implies(width > 0, len(outw) == len(words) and all(word_ok(k) for k in range(len(words))))",
-        "escape.only_line_starts": "implies(width > 0, nlead == len(result))",
+        "lossless.lines": Clause("implies(width > 0, all(line_ok(j) for j in range(len(result))))", props=["C05", "C02", "C03", "C06"]),
+        # C01: a word is altered only by the protective backslash, and only where it leads a wrapped line (j >= 1);
+        # C02/C03: the result is a function of the token sequence (every line is the join of its span of words)
+        "lossless.words": Clause("implies(width > 0, len(outw) == len(words) and all(word_ok(k) for k in range(len(words))))",
+                                 props=["C05", "C01", "C02", "C03", "C06"]),
+        "escape.only_line_starts": Clause("implies(width > 0, nlead == len(result))", props=["C05", "C01"]),
         "bounded.rest": "implies(width > 0, all(implies(j > 0, truecol(j) + len_fn(lines[j]) <= width or ends[j] - cuts[j] == 1)"
                         " for j in range(len(result))))",
         "bounded.first": Clause("implies(width > 0 and len(result) > 0, truecol(0) + len_fn(lines[0]) <= width or ends[0] - cuts[0] == 1)",
